@@ -131,9 +131,21 @@ def dsl_aggs(ctx, b, depth, seen):
     return out
 
 
+def _closures_of_rule(ctx, name):
+    cache = getattr(ctx, "_c10_closures", None)
+    if cache is None:
+        cache = {}
+        for b in ctx.prog.bodies.values():
+            n = norm(b.id)
+            if n.startswith(GRAM) and "::{closure" in n:
+                cache.setdefault(n[len(GRAM):].split("::")[0], []).append(b)
+        ctx._c10_closures = cache
+    return cache.get(name, [])
+
+
 def action_closures(ctx, rule, s):
     out = []
-    for b in ctx.prog.bodies.values():
+    for b in _closures_of_rule(ctx, rule.name):
         n = norm(b.id)
         if not n.startswith(GRAM + rule.name + "::{closure"):
             continue
